@@ -1303,7 +1303,9 @@ def run(chk):
                 "(quick: `same` for every pair plus one seed-rotated other kind); (2) every instance x scalar kind x {*, r*, /}; "
                 "(3) every instance x unary rewrite (transpose, repeat, expand, unsqueeze/squeeze, permute, sum/prod over batch and "
                 "matrix dims, add_diagonal x3 shapes, add_jitter, add_low_rank, cat_rows, cat); (3b) every instance with THREE batch dims of different sizes (plus Cat along each batch dim with unequal pieces) x every batch permutation in S3 (positive / negative dims, applied twice), transpose of every batch pair, unsqueeze/squeeze/expand at every position, repeat/sum/prod over each batch dim; (3a) the pair / scalar / unary sweeps with n = 1 (1x1 instance of every class, size-1 batches, all batch kinds, every case with a model line); (3d) two-step programs: @, +, * between operands of different batch ranks followed by every unary batch rewrite of the lazy result; (3c) one operator OBJECT used by a sequence of read-only operations, operand checked after each; (4) seed-random expression programs "
-                "of depth <= 3 (quick) / 5 (thorough).  distinct = distinct (cell description); non-trivial = dense result has more "
+                "of depth <= 3 (quick) / 5 (thorough); (5) batched layer (part batchm): unary batch rewrites, mixed-rank @ / +, batches of "
+                "constants, and seed-random BProg programs (chains of three batch rewrites; (a op b) of mixed batch ranks, two rewrites, a "
+                "second broadcasting op, one more rewrite) run by the Lean evaluator `beval` of theorem beval_refines_partial.  distinct = distinct (cell description); non-trivial = dense result has more "
                 "than one entry and is not all zero.  Each case: implementation vs dense torch expression (value, shape, dtype), and "
                 "for modelled classes implementation vs Lean model (class tree exact, values exact on the first batch element).")
     chk.assumptions += ["torch broadcasting / matmul on dense tensors is the specification",
